@@ -53,7 +53,7 @@ def check(tier):
     harness = vlib.cargo_build("c11")
     pr = vlib.prove(PROP, [EXTRACT])
     driver = vlib.ocaml_build(PROP, use_zutil=False)
-    shards, per = (6, 300) if tier == "quick" else (16, 6000)
+    shards, per = (6, 300) if tier == "quick" else (16, 1500)
     with concurrent.futures.ThreadPoolExecutor(shards) as ex:
         files = list(ex.map(lambda k: run_shard(harness, k, per, sd), range(shards)))
     results = []
